@@ -40,7 +40,7 @@ def gen_checkpoint(rng, nlevels=None):
     nlevels = nlevels or rng.choice([1, 2, 2, 3])
     bf = rng.choice([2, 4])
     c.n0, mesh = gen.gen_mesh(rng, 3, nlevels, bf, max_blocks=2)
-    c.species = rng.sample(['H2', 'O2', 'OH', 'N2', 'H2O', 'CH4'], rng.randint(1, 4))
+    c.species = rng.sample(['H2', 'O2', 'OH', 'N2', 'H2O', 'CH4', 'CH2(S)', 'C(S)', 'AR'], rng.randint(1, 4))   # names with brackets included
     c.nghost = rng.choice([1, 2, 3])
     c.time = rng.choice([0.49947225144556617, 1.5e-4, 12.25, 3.946824488833992e-12])
     c.step = rng.choice([0, 5, 70100])
